@@ -5,4 +5,4 @@ Require Extraction.
 Require ExtrOcamlBasic.
 From CPF Require Import Base.Bytes Scan.Cst Scan.Build.
 Extraction Language OCaml.
-Extraction "model.ml" build_file cst_wfb cst_size.
+Extraction "model.ml" build_file census cst_wfb cst_size.
